@@ -280,6 +280,7 @@ pub fn eval_level(layout: &DocTruth, dir: &DirTruth, now: (i64, u32), id: &str, 
     // representative (all its strictly counting evidence is plain links with equal artifacts)
     let mut links: BTreeMap<String, LinkArts> = BTreeMap::new();
     let mut unambiguous = true;
+    let mut non_normal = false;
     for s in &ev.steps {
         let strict: Vec<&Cand> = s.cands.iter().filter(|c| c.strict).collect();
         let lenient_only = s.cands.iter().any(|c| !c.strict);
@@ -294,10 +295,45 @@ pub fn eval_level(layout: &DocTruth, dir: &DirTruth, now: (i64, u32), id: &str, 
         }
         let la = LinkArts { materials: arts_of(&first.signed["materials"]), products: arts_of(&first.signed["products"]) };
         if !la.materials.keys().chain(la.products.keys()).all(|p| normalized(p)) {
-            unambiguous = false;
-            break;
+            // recorded paths that are not in normal form ("./z", "a//b", "x/../y"): whether rules see them
+            // as written or in normal form is left open; the rules are judged under BOTH readings and only
+            // where the two agree
+            non_normal = true;
         }
         links.insert(s.name.clone(), la);
+    }
+    // the second reading: every recorded path in normal form (no reading if two paths of one set fall together,
+    // or a path is absolute, empty or climbs out)
+    let mut links_clean: Option<BTreeMap<String, LinkArts>> = None;
+    if non_normal && unambiguous {
+        let clean_arts = |a: &refmodel::Artifacts| -> Option<refmodel::Artifacts> {
+            let mut out = refmodel::Artifacts::new();
+            for (p, d) in a {
+                if p.is_empty() || p.starts_with('/') {
+                    return None;
+                }
+                let c = crate::recorder::clean(p);
+                if c == "." || c.starts_with("..") || out.insert(c, d.clone()).is_some() {
+                    return None;
+                }
+            }
+            Some(out)
+        };
+        let mut m = BTreeMap::new();
+        for (n, la) in &links {
+            match (clean_arts(&la.materials), clean_arts(&la.products)) {
+                (Some(a), Some(b)) => {
+                    m.insert(n.clone(), LinkArts { materials: a, products: b });
+                }
+                _ => {
+                    unambiguous = false;
+                    break;
+                }
+            }
+        }
+        if unambiguous {
+            links_clean = Some(m);
+        }
     }
     if unambiguous && !ev.out_of_scope {
         let mut judged = true;
@@ -315,7 +351,16 @@ pub fn eval_level(layout: &DocTruth, dir: &DirTruth, now: (i64, u32), id: &str, 
                 judged = false;
                 break;
             }
-            if let RuleVerdict::Reject(why) = refmodel::apply_item(&em, &ep, st["name"].as_str().unwrap_or(""), &links) {
+            let v1 = refmodel::apply_item(&em, &ep, st["name"].as_str().unwrap_or(""), &links);
+            if let Some(lc) = &links_clean {
+                let v2 = refmodel::apply_item(&em, &ep, st["name"].as_str().unwrap_or(""), lc);
+                if matches!(v1, RuleVerdict::Reject(_)) != matches!(v2, RuleVerdict::Reject(_)) {
+                    // the two readings part ways at this step: nothing is judged
+                    judged = false;
+                    break;
+                }
+            }
+            if let RuleVerdict::Reject(why) = v1 {
                 reject = Some(format!("step {}: {}", st["name"], why));
                 break;
             }
@@ -338,7 +383,9 @@ pub fn rule_in_scope(r: &refmodel::Rule) -> bool {
     let okp = |p: &String| refmodel::portable(p) && !p.is_empty();
     match r {
         Disallow(p) => okp(p) || !refmodel::interpretable(p),
-        Create(p) | Delete(p) | Modify(p) | Allow(p) | Require(p) => okp(p),
+        // (REQUIRE looks its operand up literally: whether it would also be a well-formed pattern is irrelevant)
+        Require(p) => !p.is_empty(),
+        Create(p) | Delete(p) | Modify(p) | Allow(p) => okp(p),
         Match { pattern, src, dst, .. } => {
             okp(pattern)
                 && src.as_ref().map(|s| normalized(s)).unwrap_or(true)
